@@ -136,6 +136,7 @@ class Obl:
         s.name = name; s.props = tuple(props); s.hyps = hyps; s.goal = goal; s.witness = witness or {}; s.kind = kind; s.replay = replay
 OBL = []
 DEFAULT_PROPS = []          # set by the unit
+DEFAULT_REPLAY = {}         # {'replay': {'driver': name}} set by the unit runner from the spec's REPLAY
 _TAG = re.compile(r"\[(C\d\d(?:/C\d\d)*)\]")
 def oblige(st, name, goal, props=None, witness=None, kind='goal', replay=None):
     """record a proof obligation under the current path condition. Property tags may be given in the name as [C02] or [C06/C07]."""
@@ -145,7 +146,7 @@ def oblige(st, name, goal, props=None, witness=None, kind='goal', replay=None):
     if isinstance(goal, bool): goal = BoolVal(goal)
     w = dict(st.ghost.get('__witness', {})) if isinstance(st.ghost.get('__witness'), dict) else {}
     if witness: w.update(witness)
-    OBL.append(Obl(name, props, list(st.pc) + list(st.facts), goal, w, kind, replay))
+    OBL.append(Obl(name, props, list(st.pc) + list(st.facts), goal, w, kind, replay if replay is not None else DEFAULT_REPLAY.get('replay')))
 def reach(st, name, props=None):
     """vacuity guard: the path reaching this point must be satisfiable (recorded as a must-fail obligation)."""
     oblige(st, name, BoolVal(False), props=props or list(DEFAULT_PROPS), kind='mustfail')
